@@ -6,6 +6,7 @@ import (
 	"fmt"
 	"io"
 	"net"
+	"os"
 	"strconv"
 	"strings"
 	"sync"
@@ -586,6 +587,20 @@ func c05WriteTimeout(c *Ctx, r *Rand, round int) {
 	ok := map[wkey]bool{}
 	var failed, handlersDone int64
 	const nHandlers = 4
+	// odd rounds: one frame per handler that no socket buffer can hold, so that a write which runs into the timeout
+	// has already put part of its frame on the wire
+	wtSize := func(h int64, j int) int {
+		if h >= 1000 {
+			return 300
+		}
+		if round%2 == 1 && j == 2 && h%2 == 1 {
+			return 6 << 20
+		}
+		if j%2 == 1 {
+			return 300
+		}
+		return 150000
+	}
 	srv, err := startSrv(SrvCfg{WriteTimeout: 400 * time.Millisecond}, func(m *gldap.Mux) {
 		m.Search(func(w *gldap.ResponseWriter, req *gldap.Request) {
 			sm, err := req.GetSearchMessage()
@@ -593,19 +608,27 @@ func c05WriteTimeout(c *Ctx, r *Rand, round int) {
 				return
 			}
 			h := sm.GetID()
-			for j := 0; j < 8; j++ {
-				n := 150000
-				if j%2 == 1 {
-					n = 300
-				}
+			jmax := 8
+			if h >= 1000 { // the follow-up request sent after the client resumed reading
+				jmax = 3
+			}
+			for j := 0; j < jmax; j++ {
+				n := wtSize(h, j)
 				e := req.NewSearchResponseEntry(fmt.Sprintf("h=%d,j=%d", h, j))
 				e.AddAttribute("p", []string{string(c05Payload(h, j, n))})
+				tw := time.Now()
 				err := w.Write(e)
+				if n > 1<<20 && os.Getenv("VERIF_VERBOSE") != "" {
+					fmt.Fprintf(os.Stderr, "c05 wt: big write h=%d began %s took %s\n", h, tw.Format("05.000"), time.Since(tw))
+				}
 				mu.Lock()
 				if err == nil {
 					ok[wkey{h, j}] = true
 				} else {
 					failed++
+					if os.Getenv("VERIF_VERBOSE") != "" {
+						fmt.Fprintf(os.Stderr, "c05 wt: h=%d j=%d: %v\n", h, j, err)
+					}
 				}
 				mu.Unlock()
 				time.Sleep(60 * time.Millisecond)
@@ -634,7 +657,14 @@ func c05WriteTimeout(c *Ctx, r *Rand, round int) {
 	br := bufio.NewReaderSize(cn, 64<<10)
 	seen := map[wkey]int{}
 	var parseErr error
+	t0 := time.Now()
+	dbg := func(what string) {
+		if os.Getenv("VERIF_VERBOSE") != "" {
+			fmt.Fprintf(os.Stderr, "c05 wt: %6dms %s (stream: %v)\n", time.Since(t0).Milliseconds(), what, parseErr)
+		}
+	}
 	readSome := func(max int, d time.Duration) {
+		defer dbg("readSome returns")
 		for i := 0; i < max && parseErr == nil; i++ {
 			cn.SetReadDeadline(time.Now().Add(d))
 			f, err := sber.ReadFrame(br)
@@ -658,10 +688,7 @@ func c05WriteTimeout(c *Ctx, r *Rand, round int) {
 				var eh int64
 				var ej int
 				if _, serr := fmt.Sscanf(string(e.DN), "h=%d,j=%d", &eh, &ej); serr == nil && eh == m.ID {
-					n := 150000
-					if ej%2 == 1 {
-						n = 300
-					}
+					n := wtSize(eh, ej)
 					if len(e.Attrs) == 1 && string(e.Attrs[0].Vals[0]) == string(c05Payload(eh, ej, n)) {
 						seen[wkey{eh, ej}]++
 						continue
@@ -672,8 +699,33 @@ func c05WriteTimeout(c *Ctx, r *Rand, round int) {
 		}
 	}
 	readSome(2+r.Intn(3), patience)
-	time.Sleep(900 * time.Millisecond) // back-pressure for longer than the write timeout
+	if round%2 == 1 {
+		// back-pressure until a Write has failed (encoding a frame of several MiB takes seconds in a race build, so
+		// this waits for the event, not for a time)
+		for dl := time.Now().Add(patience); time.Now().Before(dl); time.Sleep(5 * time.Millisecond) {
+			mu.Lock()
+			f, d := failed, handlersDone
+			mu.Unlock()
+			if f > 0 || d == nHandlers {
+				break
+			}
+		}
+		dbg("first failed write seen, reading on")
+	} else {
+		time.Sleep(900 * time.Millisecond) // back-pressure for longer than the write timeout
+	}
+	drain := func() {
+		if parseErr != nil && parseErr != io.EOF {
+			// the stream stopped being a sequence of whole frames (or ended inside one). Keep taking bytes off the
+			// socket like a client that has not noticed yet, so that later writes are not held back by our not
+			// reading; whatever those writes report as written can no longer arrive as a whole frame: judged below.
+			cn.SetReadDeadline(time.Time{})
+			go io.Copy(io.Discard, br)
+			c.Count("streams_that_ended_inside_a_frame_after_a_failed_write", 1)
+		}
+	}
 	readSome(1<<30, 1500*time.Millisecond)
+	drain()
 	// let the handlers finish their remaining (failing or succeeding) writes, then judge
 	for dl := time.Now().Add(patience); time.Now().Before(dl); time.Sleep(10 * time.Millisecond) {
 		mu.Lock()
@@ -683,10 +735,36 @@ func c05WriteTimeout(c *Ctx, r *Rand, round int) {
 			break
 		}
 	}
-	readSome(1<<30, 500*time.Millisecond)
+	if parseErr == nil || parseErr == io.EOF {
+		parseErr = nil
+		readSome(1<<30, 500*time.Millisecond)
+		drain()
+	}
+	dbg("sending the follow-up")
+	// one more request on the same connection, after whatever the timeout did to the earlier responses: whatever its
+	// handler is told was written must arrive as whole frames as well (nothing may follow a torn frame)
+	cn.SetWriteDeadline(time.Now().Add(2 * time.Second))
+	if _, werr := cn.Write(sber.Message(1000, sber.Search{Base: []byte("dc=x"), Scope: 2, Filter: sber.PresentFilter("cn"), Attrs: [][]byte{}}.Node(), nil).Encode()); werr == nil {
+		for dl := time.Now().Add(3 * time.Second); time.Now().Before(dl); time.Sleep(10 * time.Millisecond) {
+			mu.Lock()
+			d := handlersDone
+			mu.Unlock()
+			if d == nHandlers+1 {
+				break
+			}
+		}
+		if parseErr == io.EOF {
+			parseErr = nil
+			readSome(1<<30, 500*time.Millisecond)
+		}
+		c.Count("follow_up_requests_after_write_timeouts", 1)
+	}
 	mu.Lock()
 	defer mu.Unlock()
 	det := map[string]any{"round": round, "failed_writes": failed, "successful_writes": len(ok), "stream_end": fmt.Sprint(parseErr)}
+	if os.Getenv("VERIF_VERBOSE") != "" {
+		fmt.Fprintf(os.Stderr, "c05 write-timeout run: %v seen=%d\n", det, len(seen))
+	}
 	for k := range ok {
 		if seen[k] == 0 {
 			c.Violate("frame lost although its Write returned nil", fmt.Sprintf("with a write timeout and a client that paused: h=%d j=%d was reported written but never arrived as a whole frame (stream ended with: %v)", k.h, k.j, parseErr), det)
